@@ -1,0 +1,17 @@
+//! Verification hooks (only compiled with `--cfg assets_manager_verif`).
+//!
+//! Thin re-exports of crate-private pieces so that the external verification harness can drive
+//! them directly.  Nothing here changes the behaviour of the crate.
+#![allow(missing_docs, dead_code)]
+
+use crate::entry::ReloadId;
+
+/// Builds a `ReloadId` from its raw value.
+pub fn reload_id_from(raw: usize) -> ReloadId {
+    ReloadId::verif_from_raw(raw)
+}
+
+/// The raw value of a `ReloadId`.
+pub fn reload_id_raw(id: ReloadId) -> usize {
+    id.verif_raw()
+}
